@@ -85,7 +85,7 @@ def run_calls(flags, en, div, started, calls, rich=None):
         nx.disconnect()
         info["live_end"] = [t.name for t in sim.live_tasks()]
 
-    r, sim = vsim.run_sim(scenario)
+    r, sim = vsim.run_sim(scenario, time_limit=600.0, real_limit=20.0)
     info["errors"] = [(n, repr(e)) for n, e, _ in sim.errors]
     if isinstance(r, BaseException):
         raise r
